@@ -12,6 +12,8 @@
 \*    P, dP,             P[i][j]  = numerator of Pr(i -> j) over dP
 \*    Pi, dPi,           Pi[j]    = numerator of the start probability over dPi
 \*    E, dE,             E[t][j]  = numerator of the emission of site t in state j
+\*    dEm, d2Em,         numerators (over dE) of the first / second derivative of the emissions
+\*                       with respect to the variable under consideration
 \*    bps,               break points as the library takes them: strictly
 \*                       increasing 0-based positions b in 1..len-1, site b
 \*                       starts a new segment
@@ -77,6 +79,22 @@ Walk(mm, t, prev, w, ct, cs) ==
 LikDef(mm)           == Walk(mm, 1, 1, 1, 0, 0)
 ThroughDef(mm, t, s) == Walk(mm, 1, 1, 1, t, s)          \* = posterior_t(s) * LikDef
 
+\* The likelihood is a polynomial in an emission parameter; its first and second derivative are
+\* again sums over all paths (product rule along the path: w, w', w'' of the prefix).
+\* d log L = L'/L and d2 log L = L''/L - (L'/L)^2, so L' and L'' are what the classes must deliver.
+RECURSIVE WalkD(_, _, _, _, _, _, _)
+WalkD(mm, t, prev, w, dw, d2w, which) ==
+  IF t > mm.len THEN (IF which = 1 THEN dw ELSE d2w)
+  ELSE SumF(LAMBDA s :
+              LET g  == IF IsStart(mm, t) THEN mm.Pi[s] ELSE mm.P[prev][s]
+                  f  == g * mm.E[t][s]
+                  f1 == g * mm.dEm[t][s]
+                  f2 == g * mm.d2Em[t][s]
+              IN WalkD(mm, t + 1, s, w * f, dw * f + w * f1, d2w * f + 2 * dw * f1 + w * f2, which), mm.n)
+
+D1LikDef(mm) == WalkD(mm, 1, 1, 1, 0, 0, 1)
+D2LikDef(mm) == WalkD(mm, 1, 1, 1, 0, 0, 2)
+
 \* ---------------------------------------------------------------- algorithm: forward pass + chunked accumulation
 \* start of a segment as the code computes it, sum_k pi_k P(k,j); equals pi_j for a stationary pi
 StartVec(mm) == [j \in States(mm) |-> PiP(mm, j) \div mm.dP]
@@ -90,7 +108,9 @@ BufSize(mm)  == Mn(mm.chunk, mm.len)
 FwdInit(mm) ==
   [i |-> 1,
    F |-> << [j \in States(mm) |-> mm.E[1][j] * StartVec(mm)[j]] >>,
-   acc |-> 1, it |-> 1,
+   dF |-> << [j \in States(mm) |-> mm.dEm[1][j] * StartVec(mm)[j]] >>,
+   d2F |-> << [j \in States(mm) |-> mm.d2Em[1][j] * StartVec(mm)[j]] >>,
+   acc |-> 1, dacc |-> 0, d2acc |-> 0, it |-> 1,
    nxt |-> IF mm.bps # <<>> THEN mm.bps[1] ELSE mm.len,
    buf |-> [p \in 1..BufSize(mm) |-> IF p = 1 THEN 0 ELSE -1],
    off |-> 0, sum |-> <<>>, oob |-> BufSize(mm) < 1]
@@ -105,6 +125,25 @@ FwdNext(mm, s) ==
       newF == IF cont
               THEN [j \in States(mm) |-> mm.E[t][j] * SumF(LAMBDA k : mm.P[k][j] * prevF[k], mm.n)]
               ELSE [j \in States(mm) |-> mm.E[t][j] * StartVec(mm)[j]]
+      \* derivative recursions (computeDForward_ / computeD2Forward_), unscaled
+      prevD  == s.dF[t - 1]
+      prevD2 == s.d2F[t - 1]
+      S0(j) == SumF(LAMBDA k : mm.P[k][j] * prevF[k], mm.n)
+      S1(j) == SumF(LAMBDA k : mm.P[k][j] * prevD[k], mm.n)
+      S2(j) == SumF(LAMBDA k : mm.P[k][j] * prevD2[k], mm.n)
+      newD  == IF cont
+               THEN [j \in States(mm) |-> mm.dEm[t][j] * S0(j) + mm.E[t][j] * S1(j)]
+               ELSE [j \in States(mm) |-> mm.dEm[t][j] * StartVec(mm)[j]]
+      newD2 == IF cont
+               THEN [j \in States(mm) |-> mm.d2Em[t][j] * S0(j) + 2 * mm.dEm[t][j] * S1(j) + mm.E[t][j] * S2(j)]
+               ELSE [j \in States(mm) |-> mm.d2Em[t][j] * StartVec(mm)[j]]
+      \* closing a segment: product rule on (likelihood so far) x (total of the segment)
+      T0 == SumV(prevF)
+      T1 == SumV(prevD)
+      T2 == SumV(prevD2)
+      nacc   == IF cont THEN s.acc ELSE s.acc * T0
+      ndacc  == IF cont THEN s.dacc ELSE s.dacc * T0 + s.acc * T1
+      nd2acc == IF cont THEN s.d2acc ELSE s.d2acc * T0 + 2 * s.dacc * T1 + s.acc * T2
       nit  == IF cont THEN s.it ELSE s.it + 1
       nnxt == IF cont THEN s.nxt ELSE IF nit <= Len(mm.bps) THEN mm.bps[nit] ELSE mm.len
       bs   == BufSize(mm)
@@ -117,13 +156,13 @@ FwdNext(mm, s) ==
       fullA  == slotA = mm.chunk - 1
       bufA   == Put(s.buf, slotA, i)
   IN IF ChunkVariant = "fixed"
-     THEN [i |-> i + 1, F |-> Append(s.F, newF),
-           acc |-> IF cont THEN s.acc ELSE s.acc * SumV(prevF),
+     THEN [i |-> i + 1, F |-> Append(s.F, newF), dF |-> Append(s.dF, newD), d2F |-> Append(s.d2F, newD2),
+           acc |-> nacc, dacc |-> ndacc, d2acc |-> nd2acc,
            it |-> nit, nxt |-> nnxt,
            buf |-> Put(s.buf, i - off1, i), off |-> off1, sum |-> sum1,
            oob |-> s.oob \/ i - off1 >= bs]
-     ELSE [i |-> i + 1, F |-> Append(s.F, newF),
-           acc |-> IF cont THEN s.acc ELSE s.acc * SumV(prevF),
+     ELSE [i |-> i + 1, F |-> Append(s.F, newF), dF |-> Append(s.dF, newD), d2F |-> Append(s.d2F, newD2),
+           acc |-> nacc, dacc |-> ndacc, d2acc |-> nd2acc,
            it |-> nit, nxt |-> nnxt,
            buf |-> bufA, off |-> IF fullA THEN s.off + mm.chunk ELSE s.off,
            sum |-> IF fullA THEN s.sum \o SubSeq(bufA, 1, Mn(mm.chunk, Len(bufA))) ELSE s.sum,
@@ -133,6 +172,8 @@ RECURSIVE RunFwd(_, _)
 RunFwd(mm, s) == IF s.i >= mm.len THEN s ELSE RunFwd(mm, FwdNext(mm, s))
 
 LikAlg(mm, s)  == s.acc * SumV(s.F[mm.len])
+D1LikAlg(mm, s) == s.dacc * SumV(s.F[mm.len]) + s.acc * SumV(s.dF[mm.len])
+D2LikAlg(mm, s) == s.d2acc * SumV(s.F[mm.len]) + 2 * s.dacc * SumV(s.dF[mm.len]) + s.acc * SumV(s.d2F[mm.len])
 Summed(mm, s)  == s.sum \o SubSeq(s.buf, 1, mm.len - s.off)       \* the final partial sum
 EachSiteOnce(mm, s) == /\ Len(Summed(mm, s)) = mm.len
                        /\ {Summed(mm, s)[k] : k \in 1..mm.len} = 0..(mm.len - 1)
@@ -180,7 +221,10 @@ Init ==
   \E p \in [1..N -> Rows], pi \in Rows, e \in [1..L -> [1..N -> EVals]],
      S \in SUBSET (1..(L - 1)), c \in 1..(L + 1) :
      LET mm == [n |-> N, len |-> L, P |-> p, dP |-> DP, Pi |-> pi, dPi |-> DP,
-                E |-> e, dE |-> 1, bps |-> SortedSeq(S), chunk |-> c]
+                E |-> e, dE |-> 1, bps |-> SortedSeq(S), chunk |-> c,
+                \* a fixed, non-trivial pattern of emission derivatives (not enumerated: state count)
+                dEm  |-> [t \in 1..L |-> [j \in 1..N |-> (e[t][j] + j) % 2]],
+                d2Em |-> [t \in 1..L |-> [j \in 1..N |-> (t + j) % 2]]]
      IN /\ Stationary(mm)
         /\ m = mm /\ pc = "fwd" /\ st = FwdInit(mm) /\ bt = BwdInit(mm)
 
@@ -198,6 +242,9 @@ ModelOk == BpsOk(m) /\ RowStochastic(m) /\ Distribution(m) /\ Stationary(m)
 InRange == ~st.oob                                              \* the chunk buffer is never overrun
 
 ForwardIsDefinition == pc \in {"bwd", "done"} => LikAlg(m, st) = LikDef(m)
+
+DerivativesAreDefinition ==
+  pc \in {"bwd", "done"} => D1LikAlg(m, st) = D1LikDef(m) /\ D2LikAlg(m, st) = D2LikDef(m)
 
 ChunksCoverSites    == pc \in {"bwd", "done"} => EachSiteOnce(m, st)
 
